@@ -243,6 +243,11 @@ theorem C17_history_terminates (g : Bool) (ops : List (Spec × Nat × Op)) (h : 
     HistOK g ops St.init :=
   histFueled_ok g ops St.init (fun T _ => WF.init.base T) h
 
+/-- both together: with enough fuel per load, every reachable state is well formed -/
+theorem C17_history_wf_fueled (g : Bool) (ops : List (Spec × Nat × Op)) (h : HistFueled g ops St.init)
+    (T : Spec) (hT : T.glob = g) : WF (base T (runOps ops St.init)) :=
+  C17_history_wf g ops (C17_history_terminates g ops h) T hT
+
 /-- **The C17 statements in every reachable state**: after any history, the next `model_from_file`
 opens every file at most once and no cached one; when it succeeds it opens exactly the non-cached
 closure, leaves a well-formed state in which every `local_models` entry is the `all_models` entry of
@@ -355,10 +360,17 @@ example : (preload (exS true) 3 St.init [some 2, some 0, some 1]).1.all = [(2, 0
 /-- a history through all entry points: a file, a model without file name (invented name 3), a pre-load,
 a cached reload and a load that fails (file 4 does not parse) -/
 def exH : List (Spec × Nat × Op) :=
-  [(exS true, 4, .file 1), (exT true, 4, .str 3), (exS true, 4, .preload [some 2, some 0]),
-   ({ exS true with syntaxErr := fun f => f == 4 }, 4, .file 4), (exS true, 4, .file 0)]
+  [(exS true, 5, .file 1), (exT true, 5, .str 3), (exS true, 5, .preload [some 2, some 0]),
+   ({ exS true with syntaxErr := fun f => f == 4 }, 5, .file 4), (exS true, 5, .file 0)]
 
 example : HistOK true exH St.init := ⟨rfl, by decide, rfl, by decide, rfl, by decide, rfl, by decide, rfl, by decide, trivial⟩
+/-- the fuel hypothesis of `C17_history_terminates` holds for it: files 0..4 are closed under imports -/
+example : HistFueled true exH St.init :=
+  ⟨rfl, ⟨[0, 1, 2, 3, 4], closedB_spec (by decide), by decide, by decide⟩,
+   rfl, ⟨[0, 1, 2, 3, 4], closedB_spec (by decide), by decide, by decide⟩,
+   rfl, ⟨[0, 1, 2, 3, 4], closedB_spec (by decide), by decide, by decide⟩,
+   rfl, ⟨[0, 1, 2, 3, 4], closedB_spec (by decide), by decide, by decide⟩,
+   rfl, ⟨[0, 1, 2, 3, 4], closedB_spec (by decide), by decide, by decide⟩, trivial⟩
 example : (runOps exH St.init).all = [(1, 0), (2, 1), (0, 2), (3, 3)] := by decide
 example : (runOps exH St.init).reads = [4, 3, 0, 2, 1] := by decide
 -- any cached file is returned as it is: file 2 was only ever imported
